@@ -49,6 +49,7 @@ type Profile struct {
 	CharAlt    int  // percentage of choices built from single-character literals and small classes over a shared alphabet
 	ThrowIdiom int  // percentage of rules built as labelled-failure idioms (guarded items in sequence / nested)
 	ScanPct    int  // percentage of grammars wrapped in a scanning start rule S <- (v:R0 w:. {..} / .)*
+	JoinWords  int  // percentage of literals (and classes) spelled like the separators of the expected list: ", "  " or "
 	NotShare   int  // percentage of choices of the form !R x / R y (or R y / !R x): one rule evaluated at one offset inside and outside a negative predicate
 }
 
@@ -122,6 +123,11 @@ func (g *gctx) newNode(k Kind) *Node {
 
 func (g *gctx) genLit() *Node {
 	n := g.newNode(KLit)
+	if g.p.JoinWords > 0 && g.pct(g.p.JoinWords) {
+		// terminals whose text looks like the separators of the "expected: a, b or c" list
+		n.Lit = []string{", ", " or ", ",", "or", "a, b", "\", \""}[g.r.Intn(6)]
+		return n
+	}
 	ln := 1
 	switch x := g.r.Intn(10); {
 	case x == 0:
@@ -159,6 +165,10 @@ func escClassRune(s string) string {
 
 func (g *gctx) genCls() *Node {
 	n := g.newNode(KCls)
+	if g.p.JoinWords > 0 && g.pct(g.p.JoinWords) {
+		n.Cls = []string{"[;, ]", "[, ]", "[ or]"}[g.r.Intn(3)]
+		return n
+	}
 	ic := g.pct(g.p.IgnoreCase)
 	inv := g.pct(20)
 	var sb strings.Builder
